@@ -320,3 +320,43 @@ func vh_C10_cookie_roundtrip() {
 		verifAssert("C09.cookie.rejected-only-outside-lifetime", age >= expireSec || age <= -300)
 	}
 }
+
+// (e) every part of a split session cookie carries each configured attribute -- for every
+// combination of the Secure / HttpOnly / SameSite settings
+// verif: unwind=12 havoc=encryption.SignedValue also=C18 steps=2000000 guess
+func vh_C18_split_attributes() {
+	name := "_oauth2_proxy"
+	store := vStoreFor(name)
+	store.Cookie.Secure = ndBool("cookie-secure")
+	store.Cookie.HTTPOnly = ndBool("cookie-httponly")
+	sameSites := []string{"", "lax", "strict", "none"}
+	wantSS := []http.SameSite{0, http.SameSiteLaxMode, http.SameSiteStrictMode, http.SameSiteNoneMode}
+	k := ndChoice("cookie-samesite", len(sameSites))
+	store.Cookie.SameSite = sameSites[k]
+	n := 6000
+	value := []byte(strings.Repeat("A", n))
+	now := time.Unix(1700000000, 0)
+	signed, _ := encryption.SignedValue(vSecret, name, value, now)
+	verifAssume(len(signed) == 4*((n+2)/3)+56)
+	// serialised attribute part: "; Path=/; Max-Age=604800" + the configured flags
+	attr := 24
+	if store.Cookie.HTTPOnly {
+		attr += 10
+	}
+	if store.Cookie.Secure {
+		attr += 8
+	}
+	attr += []int{0, 14, 17, 15}[k]
+	probe := store.makeCookie(vReq("app.example"), name, "", store.Cookie.Expire)
+	verifAssume(len(probe.String())-len(name)-1 == attr)
+	cookies, err := store.makeSessionCookie(vReq("app.example"), value, now)
+	verifAssert("C10.split.no-error", err == nil)
+	verifAssert("C18.split.really-split", len(cookies) >= 2)
+	for _, c := range cookies {
+		verifAssert("C18.split.secure-as-configured", c.Secure == store.Cookie.Secure)
+		verifAssert("C18.split.httponly-as-configured", c.HttpOnly == store.Cookie.HTTPOnly)
+		verifAssert("C18.split.samesite-as-configured", c.SameSite == wantSS[k])
+		verifAssert("C18.split.path-and-lifetime-as-configured", c.Path == store.Cookie.Path && c.MaxAge == int(store.Cookie.Expire/time.Second))
+	}
+	verifReach("end")
+}
